@@ -15,9 +15,10 @@ func init() {
 			"(1) guarded-by — every access outside constructor-only code and Close methods to a field of the frozen guard table holds its guard (exclusively for writes, including map/slice content writes); entry lock sets are propagated inter-procedurally (a callee inherits the intersection of its call sites); " +
 			"(2) atomic consistency — a field accessed through sync/atomic (or the unsafe atomic pointer idiom) anywhere is accessed that way everywhere; " +
 			"(3) no re-entrancy — no method calls, while holding a lock of its receiver, a method of the same receiver that acquires that lock again (sync.Mutex self-deadlock, recursive RLock); " +
-			"(4) lock order — the inter-procedural acquired-while-held graph restricted to the in-scope locks is acyclic.",
+			"(4) lock order — the inter-procedural acquired-while-held graph restricted to the in-scope locks is acyclic; " +
+			"(5) the database-wide transaction lock is released on every exit of Commit/Rollback after the active swap (a leaked lock blocks every later transaction: shared with C04/C17).",
 		NotDecided: "absence of data races in general (needs a happens-before detector over executions), panics from index arithmetic, goroutine leaks, Close concurrent with other calls (out of the property's scope).",
-		Rules:      []func(*Ctx, *Reporter){ruleGuardedBy, ruleAtomicConsistency, ruleReentrancyScope, ruleLockOrder},
+		Rules:      []func(*Ctx, *Reporter){ruleGuardedBy, ruleAtomicConsistency, ruleReentrancyScope, ruleLockOrder, ruleTxRelease},
 	})
 }
 
